@@ -155,7 +155,9 @@ impl Binomial {
                 let s = p / q;
                 Method::Binv(
                     Binv {
-                        r: q.powf(n as f64),
+                        // q^n through ln(1 - p): `q` itself carries a rounding error of up to 2^-54, which
+                        // `powf` would amplify by a factor n
+                        r: ((-p).ln_1p() * n as f64).exp(),
                         s,
                         a: (n as f64 + 1.0) * s,
                         n,
